@@ -1,5 +1,6 @@
 import SockModel.Model.LocksLemmas
 import SockModel.Model.DispatchQuiesce
+import SockModel.Model.ToDosQuiesce
 /-!
 # C04  Managing sockets/ToDos against a running driver is safe (exclusion, quiescence)
 
@@ -113,3 +114,49 @@ example :
   decide
 
 end SockModel.Dispatch
+
+/-! ## quiescence, data level (ToDo model of `Model/ToDos.lean`) -/
+namespace SockModel.ToDos
+open SockModel.Deadline
+
+/-- "once ... a ToDo's Cancel has returned ..., ... that task ... will [n]ever start": for every history
+`pre` (any ToDos with any task bodies, clock readings, steps), every live ToDo `id`, and EVERY continuation
+`post` after `Cancel(id)` - steps with any timeout, other ToDos created, shifted, cancelled, their tasks
+running and re-entering the driver, the clock advancing arbitrarily - task `id` is never invoked again,
+PROVIDED nothing schedules it anew: `Shift(id)` is the only operation that gives an existing ToDo an entry,
+and neither `post` nor any task body may contain it (hypotheses `hb`, `hq`; they are what "Cancel has
+returned and the ToDo is not shifted afterwards" means). -/
+theorem cancelled_todo_never_runs (clamp : Bool) (fuel : Nat) (pre post : List Op) (id : Nat) :
+    let s := run clamp fuel {} pre
+    id ∈ s.live → (∀ p ∈ s.bodies, bodyQuiet id p.2 = true) → post.all (Op.quiet id) = true →
+      ranOf id (run clamp fuel (applyOp s (.cancel id)) post).log = ranOf id s.log := by
+  intro s hl hb hq
+  have h := inv_run clamp fuel inv_init pre
+  have hc : id ∉ ids (applyOp s (.cancel id)).todos := by
+    simp only [applyOp, if_pos hl]
+    exact not_mem_ids_remove id h.nodup
+  have hlog : (applyOp s (.cancel id)).log = s.log := by simp only [applyOp]; split <;> rfl
+  have hquiet : Quiet id (applyOp s (.cancel id)) := by
+    refine ⟨?_, hc, ?_⟩
+    · simp only [applyOp]; split <;> exact h.liveKnown id hl
+    · simp only [applyOp]; split <;> exact hb
+  rw [← hlog]
+  exact (run_quiet clamp fuel hquiet post hq).2
+
+/-- the same for a task that has run (its only entry was popped, `run_pops_only_entry`): it is not invoked
+a second time in any continuation that does not shift it -/
+theorem executed_todo_runs_once (clamp : Bool) (fuel : Nat) (s : St) (id : Nat) (post : List Op)
+    (hq : Quiet id s) (hp : post.all (Op.quiet id) = true) :
+    ranOf id (run clamp fuel s post).log = ranOf id s.log :=
+  (run_quiet clamp fuel hq post hp).2
+
+/-- non-vacuity: two tasks due at 5; the second is cancelled, the driver steps past the due time: only
+the first runs -/
+example :
+    let pre : List Op := [.new 1 5 [], .new 2 5 [.adv 1]]
+    let post : List Op := [.clock 10, .step 0, .step 0]
+    ranOf 2 (run true 8 (applyOp (run true 8 {} pre) (.cancel 2)) post).log = [] ∧
+    (ranOf 1 (run true 8 (applyOp (run true 8 {} pre) (.cancel 2)) post).log).length = 1 := by
+  decide
+
+end SockModel.ToDos
